@@ -79,4 +79,110 @@ def dtOfArg : V → Except String Dt
   | .ti a b => .ok (some (a, b))
   | _ => .error "ERR:Type"
 
+/-! ## the writer side of `to_shapefile` (channel reading of the pyshp `Writer`) -/
+
+/-- the classes `to_shapefile` sorts the shapes by -/
+inductive Cls | GeoPoint | MultiGeoPoint | LineLikeMixin | PolygonLikeMixin
+deriving DecidableEq, Repr
+
+/-- `isinstance(shape, C)`: by the stored geometry -/
+def shapeIsA (c : Cls) (s : Shape) : Bool :=
+  match c, s.geom with
+  | .GeoPoint, .point _ => true
+  | .MultiGeoPoint, .mpoint _ => true
+  | .LineLikeMixin, .line _ => true
+  | .LineLikeMixin, .mline _ => true
+  | .PolygonLikeMixin, .poly _ _ => true
+  | .PolygonLikeMixin, .mpoly _ => true
+  | _, _ => false
+
+/-- `issubclass(t, c)` on the types of property values: reflexive, and `bool` is an `int` -/
+def PTag.isSub (t c : PTag) : Bool := t == c || (t == .bool && c == .int)
+
+/-- truthiness of `include_properties: Optional[List[str]]` -/
+def inclTruthy : Option (List String) → Bool
+  | some (_ :: _) => true
+  | _ => false
+
+/-- `k in include_properties` (only evaluated when it is a non-empty list) -/
+def inclContains : Option (List String) → String → Bool
+  | some l, k => l.contains k
+  | Option.none, _ => false
+
+/-- a Python value as a dbf field value -/
+def V.toP : V → PVal
+  | .p v => v
+  | _ => .null
+
+/-- a pyshp `Writer` as far as the channel contract sees it: what has been declared / written, and the record
+    waiting for its shape -/
+structure WriterS where
+  file : ShpFileW
+  pending : List PVal
+
+/-- `shapefile.Writer(os.path.join(tempdir, name))` -/
+def WriterS.new (name : String) : WriterS := ⟨⟨name, [], []⟩, []⟩
+
+/-- `writer.field(k, 'L' | 'N'[, decimal=n] | 'C')` -/
+def WriterS.field (w : WriterS) (k : String) (t : FType) : WriterS :=
+  { w with file := { w.file with fields := w.file.fields ++ [(k, t)] } }
+
+/-- `writer.record(*vals)` -/
+def WriterS.record (w : WriterS) (vals : List PVal) : WriterS := { w with pending := vals }
+
+/-- the writer method a shape's `to_pyshp(writer)` calls -/
+def WriterS.shape (w : WriterS) (c : ShpCall) : WriterS :=
+  { w with file := { w.file with rows := w.file.rows ++ [(w.pending, c)] } }
+
+/-! ## the reader side of `from_shapefile` (channel reading of the zip archive and the pyshp `Reader`) -/
+
+/-- a member of the zip archive: whether its name ends in `.shp`, and what `shapefile.Reader(path / name)` hands back
+    (`zip(reader.shapes(), reader.records())` = `reader.rows`; only read for `.shp` members) -/
+structure Member where
+  isShp : Bool
+  reader : ShpFileR
+
+/-- `conv_map[t]` on a dict display of classes (`KeyError`) -/
+def classGet (m : List (String × Kind)) (k : String) : Except String Kind :=
+  match dictGet m k with
+  | some c => .ok c
+  | Option.none => .error "ERR:Key"
+
+/-- `cls.from_pyshp(shape, dt=dt, properties=props)`: the per-class adapter (`fromPyshp`, not translated), then the
+    shape constructor (pinned `BaseShape.__init__`) -/
+def fromPyshpV (k : Kind) (s : ShpShapeR) (dt : V) (props : Dict PVal) : Except String Shape := do
+  let g ← fromPyshp k s
+  let d ← dtOfArg dt
+  pure { geom := g, dt := d, props := props }
+
+/-! ## GeoPandas -/
+
+/-- a `set` of strings: its iteration order is modelled as first-insertion order (as `keyUnion` of `Model/Io.lean`) -/
+def strSet (xs : List String) : List String := (dictOf (xs.map fun k => (k, ()))).map (·.1)
+
+/-- `cls.from_wkt(text, dt=dt, properties=props)`: the per-class adapter (`fromGI`, not translated), then the shape
+    constructor (pinned `BaseShape.__init__`) -/
+def fromWktV (k : Kind) (g : GI) (dt : V) (props : Dict PVal) : Except String Shape := do
+  let geom ← fromGI k g
+  let d ← dtOfArg dt
+  pure { geom := geom, dt := d, props := props }
+
+/-! ## fastkml time objects as `KTime` -/
+
+/-- `isinstance(x, TimeStamp)` / `isinstance(x, TimeSpan)` -/
+def ktIsStamp : KTime → Bool | .stamp _ => true | _ => false
+def ktIsSpan : KTime → Bool | .span _ _ => true | _ => false
+
+/-- `x.timestamp.dt`, `x.begin.dt`, `x.end.dt` (`AttributeError` on an object of another class) -/
+def ktTimestampDt : KTime → Except String Int | .stamp t => .ok t | _ => .error "ERR:Attr"
+def ktBeginDt : KTime → Except String Int | .span b _ => .ok b | _ => .error "ERR:Attr"
+def ktEndDt : KTime → Except String Int | .span _ e => .ok e | _ => .error "ERR:Attr"
+
+/-- `TimeInterval(a, b)` on two instants (pinned `TimeInterval.__init__`) -/
+def tiOfInts (a b : Int) : Except String (Int × Int) := if b < a then .error "ERR:Value" else .ok (a, b)
+
+/-- `include_properties or <keys>` -/
+def inclOr (incl : Option (List String)) (other : List String) : List String :=
+  if inclTruthy incl then incl.getD [] else other
+
 end GV.Io.Py
